@@ -8,6 +8,7 @@ import (
 	"go/token"
 	"go/types"
 	"io"
+	"math/big"
 	"strconv"
 
 	"gvc/internal/smt"
@@ -298,6 +299,22 @@ func (e *Engine) evalBinary(st *State, x *ast.BinaryExpr) (Val, error) {
 		}
 	case token.SUB:
 		if a.T.Sort == smt.Int {
+			// integers are mathematical in the VCs (A-int). A difference of two signed
+			// non-constant operands is where that matters most (compare-by-subtraction):
+			// the result must fit the operand type, given that the operands do
+			if bt, ok := ty.Underlying().(*types.Basic); ok && bt.Info()&types.IsInteger != 0 && bt.Info()&types.IsUnsigned == 0 && bt.Info()&types.IsUntyped == 0 {
+				ta, tb := e.info().Types[x.X], e.info().Types[x.Y]
+				if ta.Value == nil && tb.Value == nil {
+					bits := map[types.BasicKind]uint{types.Int8: 8, types.Int16: 16, types.Int32: 32, types.Int64: 64, types.Int: 64}[bt.Kind()]
+					if bits > 0 {
+						lo := smt.T{S: "(- " + new(big.Int).Lsh(big.NewInt(1), bits-1).String() + ")", Sort: smt.Int}
+						hi := smt.T{S: new(big.Int).Sub(new(big.Int).Lsh(big.NewInt(1), bits-1), big.NewInt(1)).String(), Sort: smt.Int}
+						inRange := func(t smt.T) smt.T { return smt.And(smt.Le(lo, t), smt.Le(t, hi)) }
+						d := smt.Sub(a.T, b.T)
+						e.oblige(st, "safety", "no-overflow("+describe(x, e.Fset)+")", x.Pos(), smt.Implies(smt.And(inRange(a.T), inRange(b.T)), inRange(d)))
+					}
+				}
+			}
 			return Val{smt.Sub(a.T, b.T), ty}, nil
 		}
 	case token.MUL:
